@@ -448,7 +448,11 @@ def parse_state(text):
 
 
 def _summary(slots):
-    return " ".join("%d=%s[%d]" % (i, s[0], len(entries_of(s))) for i, s in enumerate(slots) if s is not None)
+    return " ".join("%d=%s[%s]" % (i, s[0], ";".join(entries_of(s))) for i, s in enumerate(slots) if s is not None)
+
+
+def _readable(ms):
+    return " ".join("%d=%s[%s]" % (i, ms[i][0], ";".join("%s@%d" % e for e in sorted(ms[i][1]))) for i in sorted(ms))
 
 
 def check_model(trace, posts, wants, hist_upto, out):
@@ -490,8 +494,8 @@ def check_model(trace, posts, wants, hist_upto, out):
                 if why:
                     break
         if why:
-            out.disagree(hist_upto(k), k, "after write %d: %s (differs in: %s)" % (k + 1, _summary(post), why),
-                         states[k][:300], layer="codec")
+            out.disagree(hist_upto(k), k, "after write %d: %s (differs in: %s)" % (k + 1, _summary(post)[:600], why),
+                         _readable(ms)[:600], layer="codec")
             return len(trace)
     return len(trace)
 
